@@ -98,3 +98,55 @@ func VerifC02_q_rollingUpdate() {
 // BOUND: topology 1 (4 IPs); a deployment with the immutable policy, replicas 3, three pods bound; scaled to 2 (one IP is surplus) or left at 3 (none is); two of its pods are deleted; the unbind of the first runs while the unbind of the second runs as a second logical thread starting inside any one window right before/after an API-server or IPAM call of the first (symbolic window 0..14), parking wherever it needs a key lock the first holds; then caches catch up and one resync pass. Afterwards the replacement of a deleted pod must be bound with an IP the deployment held (the reserve was not released by mistake)
 // ASSUME: C02: same scenario as VerifC03_q_concurrentUnbinds, checked under C02
 func VerifC02_q_concurrentUnbinds() { vpConcurrentUnbinds("C02") }
+
+// BOUND: topology 1; a named pool p1 (no Pool object) shared by two deployments app and app2 (replicas 1 each) whose pods carry the pool annotation and a release policy out of {none, immutable, never} (a pool forces "never"); both bound; app's pod is deleted and its event handled (or lost, then resync); the replacement pod of app must be bound with the IP its predecessor held (kept for the pool), whatever app2 holds in the same pool
+func VerifC02_q_sharedPoolSticky() {
+	w := vpNewWorld(1, false)
+	if err := w.configure(); err != nil {
+		return
+	}
+	w.setDeployment(1)
+	w.setDeployment2(1)
+	policy := nondetPick("", "immutable", "never")
+	a, b := vpPodNameOf(vpKindDp, 0), vpPodNameOf(vpKindDp2, 0)
+	for _, name := range []string{b, a} {
+		kind := vpKindDp
+		if name == b {
+			kind = vpKindDp2
+		}
+		w.createPod(vpMakePod(name, "U"+name, kind, policy, "p1", ""))
+		w.syncListers()
+		nodes, err := w.filter(name, "n1", "n2", "n3")
+		if err != nil || len(nodes) == 0 || w.bind(name, nodes[0]) != nil {
+			return
+		}
+		w.setRunning(name)
+	}
+	w.syncListers()
+	heldByA := vpBoundIPs(w.pods[a])
+	w.deletePod(a)
+	w.syncListers()
+	if nondetBool() {
+		for len(w.pending) > 0 {
+			_ = w.handleEvent(0)
+		}
+	} else {
+		w.pending = nil
+		w.resync()
+	}
+	w.checkAll("C02", "the end of a pod of a shared pool")
+	repl := vpPodNameOf(vpKindDp, 7)
+	w.createPod(vpMakePod(repl, "U"+repl, vpKindDp, policy, "p1", ""))
+	w.syncListers()
+	nodes, err := w.filter(repl, "n1", "n2", "n3")
+	if err != nil || len(nodes) == 0 {
+		return
+	}
+	if w.bind(repl, nodes[nondetChoice(len(nodes))]) != nil {
+		return
+	}
+	verifReach("shared-pool-replacement-bound")
+	now := vpBoundIPs(w.pods[repl])
+	verifAssert("C02/shared-pool-sticky", len(now) == 1 && len(heldByA) == 1 && now[0] == heldByA[0], "the replacement pod of a deployment in a shared pool was bound with another IP than the one its predecessor held for the pool")
+	w.checkAll("C02", "binding the replacement in a shared pool")
+}
